@@ -151,6 +151,63 @@ func init() {
 	}})
 }
 
+func init() {
+	scenarios = append(scenarios, scenario{"voxel-write-into-a-block-whose-posted-index-entry-has-no-counts", func(w *drv.Worker, cl *dvc.Client) (string, *drv.Resp, error) {
+		// found by the thorough hostile run: an accepted POST index whose block entry carries no supervoxel counts, then a
+		// write that adds voxels of that body to that block (the index update runs in a goroutine outside the recover handler)
+		root, err := cl.NewRepo("scn-nocounts")
+		if err != nil {
+			return "", nil, err
+		}
+		if err := cl.NewInstance(root, "labelmap", "lm", map[string]string{"BlockSize": "32,32,32"}); err != nil {
+			return "", nil, err
+		}
+		vox := make([]uint64, 64*64*64)
+		for i := range vox {
+			x, y, z := i%64, (i/64)%64, i/4096
+			if x < 32 && y < 32 && z < 32 {
+				vox[i] = 1000
+			} else {
+				vox[i] = 2000
+			}
+		}
+		base := "/api/node/" + root + "/lm/"
+		if r, err := w.Post(base+"raw/0_1_2/64_64_64/0_0_0", lmwire.EncodeVolume(vox)); err != nil || !r.OK() {
+			return "POST raw", &r, fmt.Errorf("POST raw: %v %v", r, err)
+		}
+		if err := w.Settle(); err != nil {
+			return "", nil, err
+		}
+		g, err := w.Get(base + "index/1000")
+		if err != nil || g.Status != 200 {
+			return "GET index", &g, fmt.Errorf("GET index: %v %v", g, err)
+		}
+		li, err := lmwire.DecodeLabelIndex(g.Body)
+		if err != nil {
+			return "", nil, fmt.Errorf("decode index: %v", err)
+		}
+		li.Label = 1000
+		li.Blocks[[3]int32{1, 0, 0}] = map[uint64]uint32{} // an entry without counts
+		if r, err := w.Post(base+"index/1000", lmwire.EncodeLabelIndex(li)); err != nil || !r.OK() {
+			return "POST index", &r, fmt.Errorf("POST index: %v %v", r, err)
+		}
+		last := "POST raw/0_1_2/32_32_32/32_0_0?mutate=true (label 1000 into block 1,0,0) after POST index/1000 with a count-less entry for that block"
+		sub := make([]uint64, 32*32*32)
+		for i := range sub {
+			sub[i] = 1000
+		}
+		r, err := w.Post(base+"raw/0_1_2/32_32_32/32_0_0?mutate=true", lmwire.EncodeVolume(sub))
+		if err != nil || r.Panicked() {
+			return last, &r, err
+		}
+		if err := w.Settle(); err != nil {
+			return last + " [background index update]", &r, err
+		}
+		rr, err := w.Get(base + "size/1000")
+		return "GET size/1000 after " + last, &rr, err
+	}})
+}
+
 func scenarioRun(c *drv.Ctx, bin string) error {
 	for i, sc := range scenarios {
 		dir, err := c.NewDataDir(fmt.Sprintf("scenario-%d", i), drv.ConfOpts{})
